@@ -640,3 +640,38 @@ Proof. vm_compute. reflexivity. Qed.
 Example ex_prefix_hyp : no_slash (bs "a" ++ bs "~removed") = true /\ bs "~removed" <> []
   /\ inside (ex_dir ++ slc :: bs "a" ++ bs "~removed") (bs "/var/lib/layercake/layers/a~removed/build/f") = Some (bs "build/f").
 Proof. vm_compute. repeat split; discriminate. Qed.
+
+(* ---------------------------------------------------------------- frame: unrelated processes *)
+(* an entry of /proc is related to the layers directory d if one of its links starts with d/ *)
+Definition related (d : bytes) (p : proc) : bool :=
+  existsb (fun kt : N * bytes => prefixb (d ++ [slc]) (snd kt)) (links p).
+
+Lemma inside_prefix d K t tl : inside (d ++ slc :: K) t = Some tl -> prefixb (d ++ [slc]) t = true.
+Proof.
+  intros H. apply prefixb_spec. apply inside_spec in H as [[-> _]| ->].
+  - exists K. apply app_slc0.
+  - exists (K ++ slc :: tl). apply app_slc.
+Qed.
+
+Lemma uses_unrelated d K p : related d p = false -> uses (d ++ slc :: K) p = [].
+Proof.
+  intros H. rewrite uses_unfold. destruct (is_process p); [|reflexivity].
+  unfold related in H. induction (links p) as [|kt l IH]; [reflexivity|]. cbn [existsb] in H.
+  apply orb_false_iff in H as [H1 H2]. cbn [flat_map]. rewrite (IH H2), app_nil_r.
+  unfold in_filter. destruct (inside (d ++ slc :: K) (snd kt)) eqn:E; [|reflexivity].
+  apply inside_prefix in E. congruence.
+Qed.
+
+(* processes without a link into the layers directory -- all the other processes of the host --
+   do not change what is reported for any layer *)
+Theorem unrelated_irrelevant d ps K : wf_layersdir d = true -> no_slash K = true ->
+  exists m m', find_layer_users d no_faults ps = SOk m
+    /\ find_layer_users d no_faults (filter (related d) ps) = SOk m'
+    /\ map proj (get m K) = map proj (get m' K).
+Proof.
+  intros Hd HK. destruct (attribution_exact d ps K Hd HK) as (m & Hm & Hg).
+  destruct (attribution_exact d (filter (related d) ps) K Hd HK) as (m' & Hm' & Hg').
+  exists m, m'. split; [assumption|]. split; [assumption|]. rewrite Hg, Hg'. clear.
+  induction ps as [|p ps IH]; [reflexivity|]. cbn [flat_map filter].
+  destruct (related d p) eqn:E; cbn [flat_map]; [now rewrite IH|]. rewrite (uses_unrelated d K p E). exact IH.
+Qed.
